@@ -1090,7 +1090,8 @@ func run(c *vh.Ctx) {
 		"(C) pairs of texts × every pair of provenances (field, field copy, getline variable/array element, $0, split element, ARGV, ENVIRON, Vars, computed number, computed string, " +
 		"constants, unset, NaN, Inf) × six operators × eight syntactic forms; non-trivial = an input-derived operand is involved. (D) CONVFMT/OFMT × numbers; FILENAME. " +
 		"(E) histories: 2–5 records of 1–5 fields from a pool where string and numeric order differ (10 9 1e1 +5 010 …), FS blank or comma, after the probe of each record one of ~30 operations " +
-		"(assign $k/$0/NF, grow/shrink, sub/gsub, ++, getline into $k/$0/NF/var, plain getline then probe); every field of every FRESH record must compare by its own text; non-trivial = an operation precedes a later record.")
+		"(assign $k/$0/NF, grow/shrink, sub/gsub, ++, getline into $k/$0/NF/var, plain getline then probe); every field of every FRESH record must compare by its own text, incl. records byte-identical to the previous record / to its rebuilt $0 (OFS = FS and ≠ FS) / to an assigned $0; non-trivial = an operation precedes a later record. " +
+		"(F) reuse: 2–4 Execute calls on one Interpreter, CONVFMT/OFMT (9 formats) set in BEGIN / action / Vars, ResetVars or not between runs; conversions and reads of CONVFMT/OFMT in every run vs the tracked state; non-trivial = a later run depends on an earlier one or on ResetVars.")
 	// A
 	checkStrings(c, corpusStrings, "corpus")
 	var all []string
@@ -1108,6 +1109,8 @@ func run(c *vh.Ctx) {
 	checkFormats(c)
 	// E
 	checkHistory(c)
+	// F
+	checkReuse(c)
 	keys := []string{}
 	for _, k := range alphabet {
 		keys = append(keys, strconv.Quote(k))
